@@ -116,6 +116,11 @@ def check_config(ctx, F, tag):
     cl = F.body(IW + "::close")
     arrs = arrays_in(cl)
     ok = len(arrs) == 1 and len(arrs[0][2]) == len(lead) and all(self_path(x) == p for x, p in zip(arrs[0][2], lead))
+    if not arrs:
+        # the header is not written as one array literal: built by pushes into a vector, in that order
+        hp = sorted([(serfmt.rpo(cl)[bi], core(cl.term_of_operand(t["args"][1]))) for bi, t in cl.calls()
+                     if callee_name(t).startswith("std::vec::Vec::<") and callee_name(t).endswith("::push") and len(t["args"]) == 2], key=lambda x: x[0])
+        ok = (len(hp) == len(lead) and all(self_path(x) == p for (_, x), p in zip(hp, lead))) if hp else None
     ctx.ob("C12.R1.int-header-agreement", IW + "::close" + tag, loc(cl.raw["span"]), ok, "sequence-agreement",
            "close header = %s; IntVector::serialize_header leads with %s" % ([tstr(x) for a in arrs for x in a[2]], lead))
     cw = [t for _, t in cl.calls() if callee_name(t) == RW + "::close_with_header"]
@@ -174,7 +179,10 @@ def check_config(ctx, F, tag):
             continue
         d = F.body("<%s as std::ops::Drop>::drop" % w)
         cb = [bi for bi, t in d.calls() if callee_name(t) == close and core(d.term_of_operand(t["args"][0]))[:2] == ("param", 0)]
-        ctx.ob("C12.R2.drop-closes", d.name + tag, loc(d.raw["span"]), bool(cb) and must_pass_through(d, 0, cb), "must-pass-through", "Drop calls close(self) on every path: %s" % bool(cb))
+        # (a path may leave without close() behind a test that the writer is not open: close() does nothing then)
+        from guards import edge_facts as _ef
+        skip = [v for u, v, f in _ef(d) if f[0] == "bool" and f[2] is False and isinstance(f[1], tuple) and f[1][0] == "call" and f[1][1].split("::")[-1] == "is_open"]
+        ctx.ob("C12.R2.drop-closes", d.name + tag, loc(d.raw["span"]), bool(cb) and must_pass_through(d, 0, cb + skip), "must-pass-through", "Drop calls close(self) on every path%s: %s" % (" (or leaves behind !is_open())" if skip else "", bool(cb)))
     # every use of the File goes through self.file.as_mut() (no other access path to the field)
     users = {}
     for b in F.all_bodies():
